@@ -222,9 +222,18 @@ class Interp:
         self.steps = 0
         self.fn_stack = []
         self.env_stack = []
+        self.executed = {}
         from . import pybuiltins, npmodel
         pybuiltins.install(self)
         npmodel.install(self)
+
+    def log_fn(self, fn, how):
+        """bookkeeping for the evidence: which repository functions were executed symbolically / used through their contract"""
+        node = fn.node
+        mod = fn.module.name if fn.module is not None else "?"
+        key = f"{mod}:{fn.qual}:L{getattr(node, 'lineno', 0)}-{getattr(node, 'end_lineno', 0)}"
+        d = self.executed.setdefault(key, {"body": 0, "callee-contract": 0})
+        d[how] += 1
 
     # -- modules -----------------------------------------------------
     def module(self, dotted):
@@ -385,9 +394,15 @@ class Interp:
     def st_With(self, st, env, in_class):
         for it in st.items:
             nm = self.dotted(it.context_expr.func) if isinstance(it.context_expr, ast.Call) else None
-            if nm not in ("np.errstate", "numpy.errstate"):
+            if nm in ("np.errstate", "numpy.errstate"):
+                self.drop("np.errstate wrapper")
+            elif nm == "open" and "open" in self.builtins:
+                # file I/O is abstracted: the script supplies what the file contains (see Interp.files)
+                v = self.eval(it.context_expr, env)
+                if it.optional_vars is not None:
+                    self.assign(it.optional_vars, v, env)
+            else:
                 raise Unsupported(f"with {nm}")
-            self.drop("np.errstate wrapper")
         self.exec_block(st.body, env, in_class)
 
     def st_Break(self, st, env, in_class):
@@ -1299,7 +1314,9 @@ class Interp:
         if getattr(self, "_skip_once", None) == fn.qual:
             self._skip_once = None
         elif fn.qual in self.contracts:
+            self.log_fn(fn, "callee-contract")
             return self.contracts[fn.qual](self, fn, args, kwargs)
+        self.log_fn(fn, "body")
         node = fn.node
         a = node.args
         env = Env({}, fn.env, fn.module)
